@@ -168,13 +168,18 @@ def run_case(case):
     counters['tree_mode_states'] = int(treemode)
     if not viol or case.get('continue_anyway'):
         try:
-            for i in range(k):
-                x.steps(1)
-                y.steps(1)
-                counters['continuation_boundaries'] += 1
-                if shash(x) != shash(y):
-                    div = i + 1
-                    break
+            explained = False
+            if treemode and spec.get('collision', 'none') != 'none':
+                div, explained = rt.lockstep_tree_collisions(x, y, k, shash)
+                counters['continuation_boundaries'] += div or k
+            else:
+                for i in range(k):
+                    x.steps(1)
+                    y.steps(1)
+                    counters['continuation_boundaries'] += 1
+                    if shash(x) != shash(y):
+                        div = i + 1
+                        break
             if div is None:
                 x.synchronize()
                 y.synchronize()
@@ -185,7 +190,7 @@ def run_case(case):
                 if dk:
                     viol.append(dict(mech='continuation:final-persisted-state-differs:' + ','.join(dk)[:100] + (':tree-mode' if treemode else ''), msg='after %d further steps final persisted states differ in %r' % (k, dk)))
             else:
-                viol.append(dict(mech='continuation:diverges' + (':tree-mode-with-collisions' if treemode and spec.get('collision', 'none') != 'none' else ''), msg='trajectories of original and restored (%s) differ at step %d of %d' % (path, div, k)))
+                viol.append(dict(mech='continuation:diverges' + ((':tree-mode-with-collisions' if explained else ':tree-mode:collisions-detected-in-different-steps') if treemode and spec.get('collision', 'none') != 'none' else ''), msg='trajectories of original and restored (%s) differ at step %d of %d' % (path, div, k)))
         except Exception as e:
             viol.append(dict(mech='continuation:raises', msg='%s: %s' % (type(e).__name__, e)))
     nondefault = len(spec.get('opts', {})) > 0
